@@ -1084,6 +1084,9 @@ func (sq *Queue) RemoveApplication(app *Application) {
 	delete(sq.allocatingAcceptedApps, appID)
 	priority := sq.recalculatePriority()
 	sq.Unlock()
+	// the application is tracked as allocating in the whole hierarchy: an application that is removed before it
+	// started running must not be left behind in the parent queues
+	sq.parent.clearAllocatingAccepted(appID)
 	app.appEvents.SendRemoveApplicationEvent(appID)
 
 	sq.parent.UpdateQueuePriority(sq.Name, priority)
@@ -2077,6 +2080,18 @@ func (sq *Queue) setAllocatingAccepted(appID string) {
 	sq.Lock()
 	defer sq.Unlock()
 	sq.allocatingAcceptedApps[appID] = true
+}
+
+// clearAllocatingAccepted removes the application from the list of accepted applications that are allocating.
+// For this queue (recursively).
+func (sq *Queue) clearAllocatingAccepted(appID string) {
+	if sq == nil {
+		return
+	}
+	sq.Lock()
+	delete(sq.allocatingAcceptedApps, appID)
+	sq.Unlock()
+	sq.parent.clearAllocatingAccepted(appID)
 }
 
 func (sq *Queue) GetPreemptionPolicy() policies.PreemptionPolicy {
